@@ -157,6 +157,28 @@ pub fn run(ctx: &Ctx) -> Report {
             families.push((4, ms, "n4_multisets_le2_width_le3"));
         }
     }
+    // unit clauses on one variable plus four clauses over the other two (incl. the four binary
+    // clauses that are unsatisfiable together without any unit being derivable): unsatisfiability
+    // that neither the initial propagation nor a single decision reveals
+    {
+        let t3 = clause_types(3);
+        for u in 0..3usize {
+            let others: Vec<usize> = (0..64).filter(|&i| !t3[i].is_empty() && t3[i].iter().all(|l| l.0 != u) && !t3[i].iter().any(|&(v, p)| t3[i].contains(&(v, !p)))).collect();
+            let units: Vec<usize> = (0..64).filter(|&i| t3[i].len() == 1 && t3[i][0].0 == u).collect();
+            let mut sets: Vec<Vec<usize>> = Vec::new();
+            for ms in multisets(others.len(), 4).into_iter().filter(|m| m.len() == 4) {
+                for &un in units.iter() {
+                    let mut s: Vec<usize> = vec![un];
+                    s.extend(ms.iter().map(|&i| others[i]));
+                    sets.push(s);
+                }
+            }
+            if ctx.tier == Tier::Quick {
+                sets = sets.into_iter().step_by(3).collect();
+            }
+            families.push((3, sets, ["n3_unit_x1_plus_4_clauses", "n3_unit_x2_plus_4_clauses", "n3_unit_x3_plus_4_clauses"][u]));
+        }
+    }
     for (n, mut sets, name) in families {
         let types = clause_types(n);
         ctx.rotate(&mut sets);
